@@ -1,6 +1,6 @@
 #!/bin/bash
 # Build the Coq development from files on disk only (offline). Run once after a fresh restore.
-set -e
+set -e -o pipefail
 cd "$(dirname "$0")"
 export VERIF_REPO="${VERIF_REPO:-/repo}"
 export PYTHONPATH="$VERIF_REPO:$PWD" PYTHONHASHSEED=0 PYTHONDONTWRITEBYTECODE=1
